@@ -85,6 +85,10 @@ def wf_errors(gfa):
             v = x._data.get(fn)
             if isinstance(v, str) and x.record_type not in ("P",) and fn != "overlaps":
                 errs.append(("dangling-name", "connected line %s holds a name instead of a reference in %s" % (ident(x), fn)))
+        for k, lst in (x._refs or {}).items():
+            for e in lst:
+                if not (isinstance(e, gfapy.Line) or (isinstance(e, gfapy.OrientedLine) and isinstance(e.line, gfapy.Line))):
+                    errs.append(("junk-back-reference", "%s lists %r (not a line) in its collection %s" % (ident(x), e, k)))
         for y in field_refs(x) + back_refs(x):
             if id(y) not in regids:
                 errs.append(("closure:%s->%s" % (x.record_type, y.record_type), "%s reaches %s which is not a line of the Gfa (connected=%s)" % (ident(x), ident(y), y._gfa is not None)))
